@@ -1060,7 +1060,7 @@ Lemma InvX_lstep c l aux s s' :
 Proof.
   intros Hl H. unfold lstep. cbv zeta. destruct (l_pc (lp s l)) eqn:Hpc.
   - (* LReady *)
-    destruct (cur_op (lp s l)) as [o|] eqn:Eop; [|discriminate]. destruct o as [k|r|].
+    destruct (cur_op (lp s l)) as [o|] eqn:Eop; [|discriminate]. destruct o as [k|r| |].
     + destruct (is_free (gmutex s)); [|discriminate]. intros E. apply Some_inj in E. subst s'.
       destruct (InvX_submit c l aux k s H Hl Hpc) as [X1 X2]. cbv zeta in X1, X2.
       apply InvX_advance; [exact X1|exact X2].
@@ -1079,10 +1079,19 @@ Proof.
     + destruct (l_cb (lp s l)) as [|o ops] eqn:Ecb.
       * assert (Hd : l_in_done (lp s l) = false).
         { unfold cur_op in Eop. rewrite Ecb in Eop. destruct (l_in_done (lp s l)); [discriminate|reflexivity]. }
-        destruct (Nat.eqb (l_active (lp s l)) 0).
-        { intros E. apply Some_inj in E. subst s'. apply InvX_advance; [|exact Hpc].
-          apply InvX_shape with (s := s); [|reflexivity|exact H].
-          eapply shape_trans; [apply shape_sync|]. apply shape_emit. exact I. }
+        destruct (Nat.eqb (l_active (lp s l)) 0 || l_stop (lp s l)).
+        { intros E. apply Some_inj in E. subst s'.
+          apply InvX_advance; [|cbn; unfold updf; rewrite Nat.eqb_refl; exact Hpc].
+          match goal with |- InvX c (emit ?y ?e) =>
+            apply InvX_shape with (s := y); [apply shape_emit; exact I | reflexivity |] end.
+          apply InvX_set_loop.
+          - apply InvX_shape with (s := s); [apply shape_sync|reflexivity|exact H].
+          - reflexivity.
+          - intros X. apply (InvX_local c s l); [exact H|exact X].
+          - intros r0. cbn. rewrite Hpc. discriminate.
+          - intros r0. cbn. rewrite Hpc. discriminate.
+          - intros r0. cbn. rewrite Hpc. discriminate.
+          - cbn. rewrite Hpc. intros [X|X]; discriminate. }
         destruct (l_pending (lp s l)).
         { intros E. apply Some_inj in E. subst s'. apply InvX_set_loop.
           - apply InvX_shape with (s := s); [apply shape_sync|reflexivity|exact H].
@@ -1097,6 +1106,17 @@ Proof.
         eapply shape_trans; [apply shape_sync|]. apply shape_emit. exact I.
       * intros E. apply Some_inj in E. subst s'. apply InvX_advance; [|exact Hpc].
         apply InvX_shape with (s := s); [apply shape_sync|reflexivity|exact H].
+    + (* uv_stop *)
+      intros E. apply Some_inj in E. subst s'.
+      apply InvX_advance; [|cbn; unfold updf; rewrite Nat.eqb_refl; exact Hpc].
+      apply InvX_set_loop.
+      * apply InvX_shape with (s := s); [apply shape_sync|reflexivity|exact H].
+      * reflexivity.
+      * intros X. apply (InvX_local c s l); [exact H|exact X].
+      * intros r0. cbn. rewrite Hpc. discriminate.
+      * intros r0. cbn. rewrite Hpc. discriminate.
+      * intros r0. cbn. rewrite Hpc. discriminate.
+      * cbn. rewrite Hpc. intros [X|X]; discriminate.
   - (* LCancel2 *)
     cbn [wq sp reqs sync_ev emit].
     assert (Hc := cancel_bool s l r).
